@@ -166,6 +166,8 @@ def space(tier):
     for t in ('N', 'N0', 'N2', 'N9', 'R'):
         for first in ['', '0', '5', '-', '.', 'a', ' ', '+']:
             sh.append(('num', t, 'B', '00401', (first, nlen - 1)))
+    for t in ('N', 'N0', 'N2', 'N9', 'R'):
+        sh.append(('numframe', t, 'B', '00401', None))
     for t in ('D8', 'DT'):
         for y in YEARS:
             sh.append(('ymd', t, 'B', '00401', y))
@@ -205,6 +207,16 @@ def gen(shard):
             return
         for s in strings(alpha, n):
             yield t, first + s
+    elif label == 'numframe':
+        # every short numeric core with a line-break / blank / control / non-ASCII character before or after it
+        # (regular-expression end anchors and str methods treat several of these specially)
+        frames = ['\n', '\r', '\r\n', ' ', '\t', '\x00', '\x0b', '\x0c', '\x1c', '\x1f', '\x85', '\u2028', '\u0663', '$', '\\']
+        for core in strings(['0', '5', '-', '.'], 4):
+            for f in frames:
+                yield t, core + f
+                yield t, f + core
+                yield t, core + f + f
+                yield t, core + f + '5'
     elif label == 'ymd':
         for m in range(0, 14):
             for d in range(0, 33):
@@ -312,7 +324,7 @@ def work(shard):
 
 def run(R):
     shards = space('thorough' if R.thorough else R.tier)
-    R.bounds = {'numeric': 'all strings of length <= %d over {0,5,-,.,a,SP} (+ leading +)' % (7 if R.thorough else 6),
+    R.bounds = {'numeric': 'all strings of length <= %d over {0,5,-,.,a,SP} (+ leading +); every core <= 4 over {0,5,-,.} framed by LF, CR, CRLF, SP, HT, NUL, VT, FF, FS, US, NEL, LS, ARABIC-INDIC 3, $, backslash (before, after, doubled, followed by a digit)' % (7 if R.thorough else 6),
                 'dates': 'every YYYYMMDD for 16 boundary years x months 00..13 x days 00..32; every YYMMDD',
                 'times': 'every HHMM, HHMMSS (HH 00..24, MM/SS 00..60), decimals, all digit strings <= 4',
                 'ranges': 'all pairs of a 19-value catalogue (8-, 6-, 12-digit dates, times, malformed) x 7 joiners, all triples of 8',
